@@ -1170,3 +1170,285 @@ class EatData(Contract):
 
 
 CONTRACTS.append(EatData())
+
+
+# ------------------------------------------------------------------------------------------- BodyMarkuper._eat_data (completeness half)
+class EatDataComplete(EatData):
+    """the COMPLETENESS half of the delimiter search: nothing is overlooked and the reported occurrence is the first one.
+
+    Section bytes S = prev ++ chunk[base:]  (prev non-empty implies base == 0).  Additional state assumption on entry (the
+    invariant this contract re-establishes on None): S-so-far (= prev) contains no occurrence of T, and when no expectation is
+    pending no proper head of T is a suffix of prev.  The delimiter T = CR LF - - boundary has its first byte nowhere else
+    (BodyMarkuper.__init__ refuses a boundary with CR), which makes the pending head unique.
+      * a returned position is the FIRST occurrence of T in S;
+      * on None, S contains no occurrence of T at all, and if no expectation is left behind then no proper head of T is a
+        suffix of S (so an occurrence that begins in S and ends in a later chunk is never lost).
+    Proof style: every universally quantified fact (no occurrence before p; no head of T ends at p) is proved for a fresh skolem
+    position from hand-picked instances of the hypotheses (invariant at the loop head, callee contract of match_tail incl. its
+    completeness, uniqueness lemma) - instantiation only, hence sound; the sequence facts used are proved as lemmas of their own."""
+    qualname = 'BodyMarkuper._eat_data'
+    props = ('C06',)
+    assumptions = EatData.assumptions[:2] + (
+        'callee contract of MatchTail.match_tail as proved, including completeness (None only if no head matches) and minimality',
+        'T[0] == CR and CR occurs nowhere else in T (BodyMarkuper.__init__: token = CRLF + "--" + boundary, boundary without CR)',
+        'state invariant on entry: no occurrence of T inside prev; no pending expectation => no proper head of T is a suffix of prev')
+    expected_labels = ('inv.no_occurrence_before_the_block_boundary', 'inv.no_head_of_the_delimiter_ends_at_the_boundary_unless_expected',
+                       'found.it_is_the_first_occurrence', 'none.no_occurrence_in_the_section', 'none.no_head_pending_unless_expected',
+                       'lemma.pending_head_is_unique')
+
+    def pre(self, X):
+        env = super().pre(X)
+        T = self.T
+        self.S = z3.Concat(self.prev, z3.SubSeq(self.chunk, self.base, L(self.chunk) - self.base))
+        # kept out of the path condition (the obligations of the soundness half are re-generated here and should stay as easy as
+        # they are there); added to the hand-made obligations below
+        self.extra = [z3.Implies(L(self.prev) > 0, self.base == 0), z3.SubSeq(T, 0, 1) == CR]
+        for e_ in self.extra:
+            X.assume(e_)
+        # quantified facts are never put into the path condition: they are used through instances only
+        self.crfree = lambda kk: z3.Implies(z3.And(kk >= 1, kk < L(T)), z3.SubSeq(T, kk, 1) != CR)
+        # entry state (quantified; used through instances only)
+        self.entry_noocc = lambda qq: z3.Implies(z3.And(qq >= 0, qq + L(T) <= L(self.prev)), z3.SubSeq(self.prev, qq, L(T)) != T)
+        self.entry_pendc = lambda mm: z3.Implies(z3.And(mm >= 1, mm < L(T)), z3.Not(z3.SuffixOf(z3.SubSeq(T, 0, mm), self.prev)))
+        self.mt_calls = []
+        c = self
+        sound_stub = self.stubs['Mt.match_tail']
+
+        def match_tail(X, args, kwargs):
+            r = sound_stub(X, args, kwargs)
+            c.mt_calls.append((args[-3].t, args[-2].t, args[-1].t, r))
+            return r
+        self.stubs = dict(self.stubs)
+        self.stubs['Mt.match_tail'] = match_tail
+        return env
+
+    # ---- helpers
+    def pS(self, i):
+        """S-index of chunk index i"""
+        return L(self.prev) + i - self.base
+
+    def win(self, q):
+        return z3.SubSeq(self.S, q, L(self.T))
+
+    def head(self, m):
+        return z3.SubSeq(self.T, 0, m)
+
+    def upto(self, p):
+        return z3.SubSeq(self.S, 0, p)
+
+    def mt_complete(self, call, i):
+        """instances of the completeness / minimality part of match_tail's contract for one recorded call"""
+        s, st, en, r = call
+        fits = z3.And(i >= 1, i <= en - st, i <= L(self.T))
+        matches = z3.SubSeq(s, en - i, i) == self.head(i)
+        if isinstance(r, VNone):
+            return z3.Implies(fits, z3.Not(matches))
+        return z3.Implies(z3.And(fits, matches), i >= r.t)
+
+    def _inv(self, X):
+        base_inv = super()._inv(X)
+        tr = X.env['trest']
+        start = X.env['start'].t
+        if isinstance(tr, VBytes):
+            # the pending head lies inside the SECTION (not only inside the chunk): it was produced by bytes at or after base
+            m0 = L(self.T) - L(tr.t)
+            sec = z3.And(z3.SuffixOf(self.head(m0), self.upto(self.pS(start))), *self.extra)
+        else:
+            sec = z3.And(*self.extra)
+        return base_inv + [('pending_head_lies_in_the_section', sec)]
+
+    def loop_head(self, X, k):
+        super().loop_head(X, k)
+        start = X.env['start'].t
+        self.ctx = dict(start=start, p=self.pS(start), trest=X.env['trest'], trl=X.env['trest_len'])
+        self.n_mt_head = len(self.mt_calls)
+        # the quantified part of the invariant holds at the head (noocc_at(p, .), and pendc_at(p, .) when nothing is pending):
+        # it is used through instances only and never enters the path condition
+
+    def noocc_at(self, p, q):
+        return z3.Implies(z3.And(q >= 0, q + L(self.T) <= p), self.win(q) != self.T)
+
+    def pendc_at(self, p, m):
+        return z3.Implies(z3.And(m >= 1, m < L(self.T)), z3.Not(z3.SuffixOf(self.head(m), self.upto(p))))
+
+    def before_loop(self, X, k):
+        # the quantified invariant on entry: instances of the entry-state assumptions (S[:p(base)] == prev)
+        q, m = X.fresh(z3.IntSort(), 'q0'), X.fresh(z3.IntSort(), 'm0')
+        p0 = self.pS(self.base)
+        qf = [c for c in X.pc if not _has_quantifier(c)] + self.extra
+        hyp = qf + [self.entry_noocc(q), self.entry_pendc(m) if not self.pending0 else z3.BoolVal(True),
+                    self.upto(p0) == self.prev, z3.Implies(z3.And(q >= 0, q + L(self.T) <= p0), self.win(q) == z3.SubSeq(self.prev, q, L(self.T)))]
+        geo = [self.base >= 0, self.base <= L(self.chunk), L(self.T) >= 3]
+        X.driver.add_obligation(Obligation('lemma.section_so_far_is_prev', geo, hyp[-2], 'prove', X.where, list(X.taken)))
+        X.driver.add_obligation(Obligation('lemma.window_inside_prev', geo, hyp[-1], 'prove', X.where, list(X.taken)))
+        X.driver.add_obligation(Obligation('init.no_occurrence_before_the_block_boundary', hyp, self.noocc_at(p0, q), 'prove', X.where, list(X.taken)))
+        if not self.pending0:
+            X.driver.add_obligation(Obligation('init.no_head_of_the_delimiter_ends_at_the_boundary_unless_expected', hyp,
+                                               self.pendc_at(p0, m), 'prove', X.where, list(X.taken)))
+
+    # ---- the uniqueness lemma, proved once per use as its own obligation
+    def unique(self, X, a, b, Xs, tag):
+        """SuffixOf(T[:a], Xs) and SuffixOf(T[:b], Xs) with 1 <= a < b <= len T is impossible (T[b-a] would be CR)"""
+        T = self.T
+        n = L(Xs)
+        cond = z3.And(a >= 1, a < b, b <= L(T), z3.SuffixOf(self.head(a), Xs), z3.SuffixOf(self.head(b), Xs))
+        # the byte at distance a from the end of Xs, read through either suffix (valid sequence theory, proved as lemmas)
+        e1 = z3.Implies(z3.And(a >= 1, a <= L(T), z3.SuffixOf(self.head(a), Xs)), z3.SubSeq(Xs, n - a, 1) == z3.SubSeq(T, 0, 1))
+        e2 = z3.Implies(z3.And(a >= 1, a < b, b <= L(T), z3.SuffixOf(self.head(b), Xs)), z3.SubSeq(Xs, n - a, 1) == z3.SubSeq(T, b - a, 1))
+        X.driver.add_obligation(Obligation('lemma.byte_before_the_end_via_the_short_head', [L(T) >= 3], e1, 'prove', X.where, list(X.taken)))
+        X.driver.add_obligation(Obligation('lemma.byte_before_the_end_via_the_long_head', [L(T) >= 3], e2, 'prove', X.where, list(X.taken)))
+        fact = z3.Not(cond)
+        hyp = [z3.SubSeq(T, 0, 1) == CR, self.crfree(b - a), L(T) >= 3, e1, e2]
+        X.driver.add_obligation(Obligation('lemma.pending_head_is_unique', hyp, fact, 'prove', X.where, list(X.taken)))
+        return fact
+
+    def cross(self, X, q, p):
+        """an occurrence at q that crosses position p (q < p < q + len T) puts the head T[:p-q] at the end of S[:p] and the rest
+        T[p-q:] right after p  (valid sequence fact, proved as a lemma)"""
+        T = self.T
+        m = p - q
+        fact = z3.Implies(z3.And(q >= 0, q < p, p < q + L(T), q + L(T) <= L(self.S), self.win(q) == T),
+                          z3.And(z3.SuffixOf(self.head(m), self.upto(p)),
+                                 z3.SubSeq(self.S, p, L(T) - m) == z3.SubSeq(T, m, L(T) - m)))
+        X.driver.add_obligation(Obligation('lemma.crossing_occurrence_splits_at_the_boundary', [L(T) >= 3], fact, 'prove', X.where, list(X.taken)))
+        return fact
+
+    def winlemma(self, X, p2, mm):
+        """a head of T is a suffix of S[:p2] iff it is the window of that length ending at p2 (valid sequence fact)"""
+        fact = z3.Implies(z3.And(mm >= 1, mm <= L(self.T), mm <= p2, p2 <= L(self.S)),
+                          z3.SuffixOf(self.head(mm), self.upto(p2)) == (z3.SubSeq(self.S, p2 - mm, mm) == self.head(mm)))
+        X.driver.add_obligation(Obligation('lemma.suffix_of_a_prefix_is_a_window', [L(self.T) >= 3], fact, 'prove', X.where, list(X.taken)))
+        return fact
+
+    def in_chunk(self, X, p, n):
+        """S[p:p+n] is chunk[i:i+n] for p = pS(i) >= len(prev)  (valid sequence fact)"""
+        i = p - L(self.prev) + self.base
+        fact = z3.Implies(z3.And(p >= L(self.prev), n >= 0, p + n <= L(self.S)),
+                          z3.SubSeq(self.S, p, n) == z3.SubSeq(self.chunk, i, n))
+        X.driver.add_obligation(Obligation('lemma.section_bytes_inside_the_chunk', [self.base >= 0, self.base <= L(self.chunk)], fact,
+                                           'prove', X.where, list(X.taken)))
+        return fact
+
+    def end_of_body(self, X, k):
+        """one full block was processed without returning: the two quantified invariants at the next block boundary"""
+        T = self.T
+        c = self.ctx
+        p, p2 = c['p'], self.pS(X.env['start'].t)
+        q, m = X.fresh(z3.IntSort(), 'q1'), X.fresh(z3.IntSort(), 'm1')
+        qf = [f for f in X.pc if not _has_quantifier(f)] + self.extra
+        calls = self.mt_calls[self.n_mt_head:]
+        inst = [self.noocc_at(p, q), self.cross(X, q, p), self.in_chunk(X, p, L(T)), self.in_chunk(X, p, L(T) - (p - q))]
+        mq = p - q
+        if isinstance(c['trest'], VNone):
+            inst.append(self.pendc_at(p, mq))
+        else:
+            m0 = L(T) - L(c['trest'].t)
+            inst += [self.unique(X, m0, mq, self.upto(p), 'a'), self.unique(X, mq, m0, self.upto(p), 'b')]
+        for call in calls:
+            inst += [self.mt_complete(call, L(T)), self.mt_complete(call, m)]
+            r = call[3]
+            if isinstance(r, VInt):
+                # the block ends with the head of length r (callee, soundness); were the block the whole delimiter it would also
+                # end with the head of length len T: impossible for r < len T (uniqueness)
+                w1, w2 = self.winlemma(X, p2, r.t), self.in_chunk(X, p2 - r.t, r.t)
+                inst += [self.unique(X, r.t, L(T), self.upto(p2), 'c'), w1, self.winlemma(X, p2, L(T)), w2]
+                # (proved lemmas) also for the solver-checked invariant `pending_head_lies_in_the_section`
+                X.assume(w1)
+                X.assume(w2)
+        goal1 = self.noocc_at(p2, q)
+        X.driver.add_obligation(Obligation('inv.no_occurrence_before_the_block_boundary', qf + inst, goal1, 'prove', X.where,
+                                           list(X.taken), list(X.trace)))
+        if isinstance(X.env['trest'], VNone):
+            # a head of length m < len T that ends at p2 lies inside the block just processed
+            inst2 = inst + [self.winlemma(X, p2, m), self.in_chunk(X, p2 - m, m)]
+            X.driver.add_obligation(Obligation('inv.no_head_of_the_delimiter_ends_at_the_boundary_unless_expected', qf + inst2,
+                                               self.pendc_at(p2, m), 'prove', X.where, list(X.taken), list(X.trace)))
+        else:
+            X.prove('inv.no_head_of_the_delimiter_ends_at_the_boundary_unless_expected', z3.BoolVal(True))
+
+    def suffix_splits(self, X, m, p):
+        """a head T[:m] that is a suffix of S and longer than what follows p: its first part ends at p, the rest is S[p:]"""
+        T, S = self.T, self.S
+        rest = L(S) - p
+        fact = z3.Implies(z3.And(m >= 1, m <= L(T), p >= 0, p <= L(S), m > rest, z3.SuffixOf(self.head(m), S)),
+                          z3.And(z3.SuffixOf(self.head(m - rest), self.upto(p)),
+                                 z3.SubSeq(S, p, rest) == z3.SubSeq(T, m - rest, rest)))
+        X.driver.add_obligation(Obligation('lemma.suffix_splits_at_the_boundary', [L(T) >= 3], fact, 'prove', X.where, list(X.taken)))
+        return fact
+
+    def suffix_inside_tail(self, X, m, p):
+        """a head no longer than what follows p is a suffix of S iff it is the window of that length ending at the end of S"""
+        T, S = self.T, self.S
+        fact = z3.Implies(z3.And(m >= 1, m <= L(T), m <= L(S)),
+                          z3.SuffixOf(self.head(m), S) == (z3.SubSeq(S, L(S) - m, m) == self.head(m)))
+        X.driver.add_obligation(Obligation('lemma.suffix_is_the_last_window', [L(T) >= 3], fact, 'prove', X.where, list(X.taken)))
+        return fact
+
+    def _common_inst(self, X, q):
+        T, c = self.T, self.ctx
+        p = c['p']
+        inst = [self.noocc_at(p, q), self.cross(X, q, p), self.in_chunk(X, p, L(T) - (p - q)), self.in_chunk(X, p, L(T))]
+        mq = p - q
+        if isinstance(c['trest'], VNone):
+            inst.append(self.pendc_at(p, mq))
+        else:
+            m0 = L(T) - L(c['trest'].t)
+            inst += [self.unique(X, m0, mq, self.upto(p), 'a'), self.unique(X, mq, m0, self.upto(p), 'b')]
+        return inst
+
+    def post(self, X, ret):
+        T, S, c = self.T, self.S, self.ctx
+        p = c['p']
+        qf = [f for f in X.pc if not _has_quantifier(f)] + self.extra
+        geo = [L(S) == L(self.prev) + L(self.chunk) - self.base]
+        X.driver.add_obligation(Obligation('lemma.length_of_the_section', [self.base >= 0, self.base <= L(self.chunk)], geo[0], 'prove',
+                                           X.where, list(X.taken)))
+        q, m = X.fresh(z3.IntSort(), 'q2'), X.fresh(z3.IntSort(), 'm2')
+        calls = self.mt_calls[self.n_mt_head:]
+        if isinstance(ret, VInt):
+            p_ret = self.pS(ret.t)
+            goal = z3.Not(z3.And(q >= 0, q < p_ret, q + L(T) <= L(S), self.win(q) == T))
+            inst = self._common_inst(X, q)
+            for call in calls:
+                inst += [self.mt_complete(call, L(T))]
+            X.driver.add_obligation(Obligation('found.it_is_the_first_occurrence', qf + geo + inst, goal, 'prove', X.where,
+                                               list(X.taken), list(X.trace)))
+            return
+        # None: the chunk is used up; what is left after p is the partial block `part`
+        goal1 = z3.Not(z3.And(q >= 0, q + L(T) <= L(S), self.win(q) == T))
+        inst = self._common_inst(X, q)
+        if isinstance(c['trest'], VBytes):
+            # `part.startswith(trest)` is about the window of the chunk at `start` (valid sequence fact, proved as a lemma)
+            st, tr = c['start'], c['trest'].t
+            part = z3.SubSeq(self.chunk, st, L(self.chunk) - st)
+            pw = z3.Implies(z3.And(st >= 0, st + L(tr) <= L(self.chunk)),
+                            z3.PrefixOf(tr, part) == (z3.SubSeq(self.chunk, st, L(tr)) == tr))
+            X.driver.add_obligation(Obligation('lemma.prefix_of_the_rest_is_a_window', [L(T) >= 3], pw, 'prove', X.where, list(X.taken)))
+            inst.append(pw)
+            inst.append(self.in_chunk(X, p, L(tr)))
+        X.driver.add_obligation(Obligation('none.no_occurrence_in_the_section', qf + geo + inst, goal1, 'prove', X.where,
+                                           list(X.taken), list(X.trace)))
+        final = self.me.fields['trest']
+        if isinstance(final, VNone):
+            rest = L(S) - p
+            mm = m - rest
+            inst2 = [self.suffix_splits(X, m, p), self.suffix_inside_tail(X, m, p), self.in_chunk(X, p, rest),
+                     self.in_chunk(X, L(S) - m, m), self.pendc_at(p, m)]
+            if isinstance(c['trest'], VNone):
+                inst2.append(self.pendc_at(p, mm))
+            else:
+                m0 = L(T) - L(c['trest'].t)
+                inst2 += [self.unique(X, m0, mm, self.upto(p), 'd'), self.unique(X, mm, m0, self.upto(p), 'e')]
+            for call in calls:
+                inst2.append(self.mt_complete(call, m))
+            goal2 = z3.Implies(z3.And(m >= 1, m < L(T)), z3.Not(z3.SuffixOf(self.head(m), S)))
+            X.driver.add_obligation(Obligation('none.no_head_pending_unless_expected', qf + geo + inst2, goal2, 'prove', X.where,
+                                               list(X.taken), list(X.trace)))
+        else:
+            X.prove('none.no_head_pending_unless_expected', z3.BoolVal(True))
+
+    def post_raise(self, X, exc):
+        X.prove('raises.nothing', z3.BoolVal(False))
+
+
+CONTRACTS.append(EatDataComplete())
